@@ -55,7 +55,7 @@ PROPS = {
     ),
     'C06': dict(
         modules=['Resonate.Properties.C06'],
-        pin_filter=r'awaitLoops|coroutineCmds|tick|queueShapes',
+        pin_filter=r'awaitLoops|coroutineCmds|tick|queueShapes|storeOpen',
         tie_filter=r'promise(Insert|Update)|callback|taskInsert|taskCompleteByRootId|shape|wiring|uniques',
         harness=[sysdiff('sysdiff-crashes', ['CreatePromise', 'CreatePromiseAndTask', 'CompletePromise', 'CreateCallback', 'CreateSubscription', 'ReadPromise', 'ClaimTask', 'CompleteTask'],
                          (25, 150), (600, 200), 'C01,C05,C08,C07', ['-routed', '50', '-fail', '15', '-crash', '6', '-smallcfg', '-known', 'F5,F20'], (200, 150)),
